@@ -7,12 +7,112 @@ IMPORTS = ['C03/basis_product', 'C03/mul_den', 'C03/rs_matrix_den', 'C03/rmatmul
 TRUSTED = ['the partial-equilibrium nonlinear evaluation of each block (C02, C09)', 'H_U factorisation (C05)']
 ASSUMPTIONS = ['convergence of the quasi-Newton iteration (frozen steady-state Jacobian) is not proved; the contract is: returns only if the tolerance test held on the returned iterate',
                'second-order convergence to the linear impulse is checked numerically (scalar-case theorem not built)',
-               'no executable correspondence: tie = loop-shape facts extracted from block.py + re-evaluation oracle on the implementation']
+               'executable correspondence covers models built from simple blocks with polynomial equations (exact rational replay of each Newton iteration); models with heterogeneous-agent or solved blocks: loop-shape facts extracted from block.py + re-evaluation oracle on the implementation']
 HEADER = ''
 
 
 def correspondence(ctx):
-    return dict(evaluations=0, distinct_nontrivial=0, rule='none (abstract loop contract; see oracle)', samples=[], disagreements=[], stats={})
+    """Block.solve_impulse_nonlinear on generated polynomial models: every Newton iteration of the implementation (observed by wrapping the
+    model object's impulse_nonlinear from outside) is replayed by the executable rational model of Model/NLSolve.v from the implementation's
+    own iterate: nonlinear evaluation along the DAG, stopping decision, quasi-Newton update, returned paths."""
+    from sequence_jacobian import combine
+    from lib import nlmodels as NL
+    rng = ctx['rng']
+    n = 24 if ctx['tier'] == 'quick' else 200
+    specs = [NL.gen_nl_model(rng) for _ in range(n)]
+    mod = NL.write_module(f'c06_{ctx["seed"]}_{ctx["tier"]}', specs)
+    tol, maxit = 2.0 ** -27, 12
+    exprs, meta, dis = [], [], []
+    stats = dict(converged=0, raised_no_convergence=0, iterations={}, singular=0, steps_replayed=0, borderline_decisions=0)
+    for mi, spec in enumerate(specs):
+        objs = [getattr(mod, f'm{mi}_{b["name"]}') for b in spec['blocks']]
+        rng.shuffle(objs)
+        model = combine(objs, name=f'nl{mi}')
+        ss = model.steady_state({f'x{k}': v for k, v in spec['calib'].items()})
+        U, Tg, T, N = [f'x{u}' for u in spec['U']], [f'x{t}' for t in spec['Tg']], spec['T'], spec['N']
+        shocks = {f'x{z}': np.array(p) for z, p in spec['shocks'].items()}
+        trace = []
+        orig = model.impulse_nonlinear
+
+        def spy(ss_, inputs, *a, _orig=orig, _trace=trace, **kw):
+            r = _orig(ss_, inputs, *a, **kw)
+            _trace.append(({k: np.array(inputs[k], float) for k in inputs}, {k: np.array(r[k], float) for k in r}))
+            return r
+        model.impulse_nonlinear = spy
+        outcome, ret = 'converged', None
+        try:
+            ret = model.solve_impulse_nonlinear(ss, U, Tg, shocks, options={model.name: dict(tol=tol, maxit=maxit, verbose=False)})
+        except ValueError as ex:
+            outcome = 'raised' if 'No convergence' in str(ex) else f'raised {ex}'
+        except Exception as ex:
+            outcome = f'raised {type(ex).__name__}: {ex}'
+        del model.impulse_nonlinear
+        case = dict(spec={k: v for k, v in spec.items()}, listing=[o.name for o in objs], outcome=outcome, iterations=len(trace))
+        if outcome not in ('converged', 'raised') or not trace:
+            dis.append(dict(what='solve_impulse_nonlinear on a generated polynomial model failed unexpectedly', case=case))
+            continue
+        stats['converged' if outcome == 'converged' else 'raised_no_convergence'] += 1
+        stats['iterations'][len(trace)] = stats['iterations'].get(len(trace), 0) + 1
+        order = [b.name.split('_', 1)[1] for b in model.blocks]
+        bmap = {b['name']: b for b in spec['blocks']}
+        prog = NL.coq_prog([bmap[nm] for nm in order])
+        outs = sorted(set(int(k[1:]) for k in trace[0][1]))
+        pick = sorted(set([0, 1, len(trace) - 1]) & set(range(len(trace))))
+        # the first iterate must be U = 0 and the shocks must be passed unchanged
+        if any(np.abs(trace[0][0][u]).max() != 0 for u in U) or any(not np.array_equal(trace[k][0][z], shocks[z]) for k in range(len(trace)) for z in shocks):
+            dis.append(dict(what='solve_impulse_nonlinear does not start from U = 0 / alters the shocks between iterations', case=case))
+        for k in pick:
+            Uk = [trace[k][0][u] for u in U]
+            exprs.append(f'run_nl_step {N} {T}%Z {NL.coq_tbl(ss, N)} {NL.coq_tbl(ss, N)} {prog} {C.coq_list([int(u[1:]) for u in U], str)} {C.coq_list([int(t[1:]) for t in Tg], str)} '
+                         f'{NL.coq_devs([(int(z[1:]), p) for z, p in shocks.items()])} {NL.qf(tol)} {C.coq_list(Uk, lambda p: C.coq_list(p, NL.qf))} {C.coq_list(outs, str)}')
+            meta.append((case, k, trace, outs, U, Tg, ret, outcome))
+    vals, logs = C.eval_in_coq('C06', NL.HEADER, exprs, chunk=4, tag='nl')
+    F = NL.frac
+    for (case, k, trace, outs, U, Tg, ret, outcome), vm in zip(meta, vals):
+        if vm is None:
+            continue
+        stats['steps_replayed'] += 1
+        res_m, ok_m, nxt_m = vm
+        res_i = trace[k][1]
+        bad = []
+        for o, pm in zip(outs, res_m):
+            pi = res_i[f'x{o}']
+            pmf = np.array([float(F(x)) for x in pm])
+            if len(pmf) != len(pi) or np.abs(pmf - pi).max() > 1e-11 * max(1.0, np.abs(pmf).max()):
+                bad.append(f'path of x{o}')
+        err = max(np.abs(res_i[t]).max() for t in Tg)
+        last = k == len(trace) - 1
+        stopped = last and outcome == 'converged'
+        if abs(err - 2.0 ** -27) < 1e-13:
+            stats['borderline_decisions'] += 1
+        elif bool(ok_m) != stopped:
+            bad.append(f'stopping decision (model {ok_m}, implementation {"stopped" if stopped else "continued"})')
+        nxt = nxt_m[1] if isinstance(nxt_m, tuple) and nxt_m[0] == 'Some' else nxt_m
+        if nxt is None:
+            stats['singular'] += 1
+        elif not last:
+            for u, pm in zip(U, nxt):
+                pmf = np.array([float(F(x)) for x in pm])
+                if np.abs(pmf - trace[k + 1][0][u]).max() > 1e-9 * max(1.0, np.abs(pmf).max()):
+                    bad.append(f'next iterate of {u}')
+        if stopped and ret is not None:
+            for u in U:
+                if not np.array_equal(ret[u], trace[k][0][u]):
+                    bad.append(f'returned path of unknown {u} is not the last iterate')
+            for o in res_i:
+                if o in ret and not np.array_equal(ret[o], res_i[o]):
+                    bad.append(f'returned path of {o} is not the last evaluation')
+        if bad:
+            dis.append(dict(what='solve_impulse_nonlinear: Newton iteration differs from the executable rational model', case=dict(case, iteration=k, differing=bad[:6])))
+    for l in logs:
+        dis.append(dict(what='coq evaluation failed', log=l))
+    return dict(evaluations=len(exprs), distinct_nontrivial=len({C.canon(m[0]['spec']) for m in meta}),
+                rule='generated general-equilibrium models of polynomial @simple blocks (degree <= 3, leads/lags |k| <= 2 incl. nested, 1-2 shocked inputs, 1-3 unknowns, horizons 3-6, '
+                     'shuffled listing): solve_impulse_nonlinear (tol 2^-27, maxit 12) observed iteration by iteration; the first two and the last iteration are replayed in Coq from the '
+                     "implementation's iterate: deviations of every returned variable (1e-11), stopping decision, next iterate U - H_U^{-1} residual (1e-9), returned paths = last iterate/evaluation; "
+                     'runs that end in the documented no-convergence error are replayed as well (decision must be "continue" at every iteration)',
+                samples=[dict(blocks=[[NL.py(e) for _, e in b['outs']] for b in specs[0]['blocks']], unknowns=specs[0]['U'], targets=specs[0]['Tg'], T=specs[0]['T'])],
+                disagreements=dis, stats=stats)
 
 
 def check(rng, override=None):
